@@ -265,13 +265,27 @@ def run_case(inp):
         order = r.permutation(g * per)
         truth = (np.arange(g * per) % g)[order]
         if inp.get("sizes"):
-            # unbalanced, hierarchically spaced groups: rare kinds ~10 noise sigmas apart, an abundant kind far away
+            # unbalanced groups, clearly separated in a clean 2-D structure: an abundant kind spread over a disk of
+            # radius 1, two rare tight kinds 6.5 apart (more than three disk diameters) at distance 40; noise 0.02.
+            # (the correct partition is the global k-means optimum by a factor of two; a single k-means++ start misses
+            # it in roughly one case out of ten, ten starts practically never)
             sizes = [int(v) for v in inp["sizes"]]
-            u = r.normal(size=shape)
-            u /= np.linalg.norm(u)
-            centres = [centres[0] + (3.0 * j) * u for j in range(g - 1)] + [centres[0] + 40.0 * np.roll(u.reshape(-1), 7).reshape(shape)]
+            q, _ = np.linalg.qr(r.normal(size=(int(np.prod(shape)), 2)))
+            e1, e2 = q[:, 0].reshape(shape), q[:, 1].reshape(shape)
             truth = r.permutation(np.repeat(np.arange(g), sizes))
-        stack = np.stack([centres[t] + 0.3 * r.normal(size=shape) for t in truth]).astype(np.float32)
+            rad = np.sqrt(r.uniform(0, 1, size=len(truth)))
+            ang = r.uniform(0, 2 * np.pi, size=len(truth))
+            imgs = []
+            for t, rr_, aa in zip(truth, rad, ang):
+                if t == g - 1:
+                    base = rr_ * np.cos(aa) * e1 + rr_ * np.sin(aa) * e2
+                else:
+                    base = 40.0 * e1 + (t - (g - 2) / 2.0) * 6.5 * e2
+                imgs.append(base + 0.02 * r.normal(size=shape))
+            stack = np.stack(imgs).astype(np.float32)
+            centres = None
+        if centres is not None:
+            stack = np.stack([centres[t] + 0.3 * r.normal(size=shape) for t in truth]).astype(np.float32)
         try:
             with warnings.catch_warnings():
                 warnings.simplefilter("ignore")
@@ -394,9 +408,9 @@ def oracle(rng, thorough, deep=False, hints=None):
         per = int(rng.integers(4, 9))
         cases.append(dict(kind="clusters", shape=[4, 5, 4], groups=g, per=per, seed=int(rng.integers(0, 10 ** 6)),
                           kseed=int(rng.integers(0, 100)), chunks=[int(rng.integers(1, g * per + 1)), 4, 5, int(rng.integers(1, 5))]))
-    for i in range(6 if big else 2):
+    for i in range(40 if big else 8):
         cases.append(dict(kind="clusters", shape=[4, 5, 4], groups=3, per=0, sizes=[4, 4, [110, 60][i % 2]], seed=int(rng.integers(0, 10 ** 6)),
-                          kseed=[0, 3, 1, 4, 5, 2][i % 6], chunks=[int(rng.integers(20, 119)), 4, 5, 4]))
+                          kseed=int(rng.integers(0, 1000)) if i else 0, chunks=[int(rng.integers(20, 119)), 4, 5, 4]))
     for i in range(4 if big else 2):
         cases.append(dict(kind="classify", n=int(rng.integers(6, 11)), scale=float(rng.choice([1.0, 0.5])),
                           seed=int(rng.integers(0, 10 ** 6)), label_name=["cluster", "my-class"][i % 2],
